@@ -132,6 +132,14 @@ def ty_key(t):
     return [(repr(getattr(o, 'name', o)), getattr(o, 'z', 0)) for o in t]
 
 
+def ty_key_any(t):
+    """ty_key for types, repr for the objects of cat (which are not iterable)"""
+    try:
+        return ty_key(t)
+    except TypeError:
+        return repr(t)
+
+
 def wf_reason(d):
     """None if the diagram satisfies the representation invariant of C01, else why not.  Types are compared both with the
     library's `==` and wire by wire (name and winding number), so that a too generous `==` cannot hide a mismatch."""
